@@ -10,12 +10,12 @@ PY = "/venv/bin/python"
 META = {
     "C01": dict(cat="model_checking", tech="bounded exhaustive program enumeration + statement-sequence BFS against a lock-step reference VM",
                 text="Every program of the structure grammar up to the stated node bound, and every statement sequence up to the BFS depth, is executed through the real lexer/parser/transpiler/exec and compared (stack and stdout) with an independent reference interpreter of the documented structure semantics.",
-                note="Trusted: the reference VM (reading decisions R1-R11 in DESIGN.md), CPython; first-order element values are shared with the implementation."),
+                note="Trusted: the reference VM (reading decisions R1-R12 in DESIGN.md), CPython; first-order element values are shared with the implementation."),
     "C02": dict(cat="exploration", tech="bounded exhaustive enumeration of programs (every table key x position contexts; all token strings up to a length) with compile() as oracle",
                 text="Every key of the element table and every modifier in every syntactic position context (nested twice), and every token string up to the length bound over the structural alphabet, must transpile and compile.",
                 note="Trusted: my recogniser of 'well-formed'; CPython compile()."),
     "C03": dict(cat="exploration", tech="bounded exhaustive enumeration of literal payloads x literal kinds x syntactic contexts, parse-shape invariant",
-                text="All payloads up to length 2 over the syntax-significant characters in every literal kind and 40 contexts: the parse shape must equal that of the neutral payload and the literal's value must be the payload.",
+                text="All payloads up to length 2 over the syntax-significant characters in every literal kind and 77 contexts (incl. literals as modifier operands followed by X / x): the parse shape must equal that of the neutral payload and the literal's value must be the payload.",
                 note="Trusted: shape abstraction of the structure tree."),
     "C04": dict(cat="exploration", tech="bounded exhaustive enumeration of nesting chains x every dropped suffix of trailing closers, parse equality",
                 text="All nesting chains up to depth 4 with every tail kind; every suffix of the trailing closers dropped; parse trees must be identical.",
@@ -27,43 +27,43 @@ META = {
                 text="All strings up to the length bound over the 256-character code page (compression off) and over printable ASCII (compression on) survive quotify -> lexer -> transpiler -> exec unchanged.",
                 note="Trusted: CPython exec of the generated literal."),
     "C07": dict(cat="exploration", tech="bounded exhaustive enumeration of rational operand pairs and expression trees against fractions.Fraction",
-                text="All ordered pairs over the 93 rationals |p|<=12, q<=6 for six operators in both representations, all expression trees of depth <=2 over seven leaves run as Vyxal programs, and a structured large family: exact value and exact type.",
+                text="All ordered pairs over the 133 rationals |p|<=12, q<=6 for six operators in both representations, all expression trees of depth <=2 over seven leaves run as Vyxal programs, a structured large family, and operator chains / all 3-operator tree shapes over large integer leaves: exact value and exact type.",
                 note="Trusted: fractions.Fraction."),
     "C08": dict(cat="exploration", tech="bounded exhaustive enumeration of list shapes for every documented-vectorising element against a recursive map model",
                 text="Every element documented as vectorising (table derived from elements.yaml at run time) on all lists up to the length bound over a mixed scalar domain, nested to depth 3, in monad / list-scalar / scalar-list / list-list shapes, eager and lazy.",
                 note="Trusted: the vectorise model (recursive map, zero fill) bottoming out in the same scalar function."),
     "C09": dict(cat="exploration", tech="bounded exhaustive enumeration of (element, argument tuple) over the whole element table on a sentinel prefix",
-                text="Every key of the element table on every argument tuple over the value domain, on top of a sentinel prefix whose identity and value must survive; every modifier applied to every element.",
+                text="Every key of the element table on every argument tuple over the value domain, on top of a sentinel prefix whose identity and value must survive; every modifier applied to every element; the documented result counts of the data-dependent elements.",
                 note="Calls that raise are out of domain. Documented whole-stack operations are exempt from the depth oracle."),
     "C10": dict(cat="model_checking", tech="explicit-state BFS over copy-op/element histories on the real interpreter + exhaustive element sweep with kept references",
                 text="Every element on every argument tuple with a structural snapshot of the arguments compared afterwards; BFS over histories <value> <copy-op> <elements...> checking the untouched reference after every transition.",
                 note="Trusted: structural snapshot (lazy lists forced to a bound)."),
     "C11": dict(cat="model_checking", tech="explicit-state exploration of read histories on the real interpreter in lock-step with a cursor automaton",
-                text="All read histories up to the depth bound over explicit reads, implicit pops of arity 1-3 and reads inside lambda/function scopes, for input lists of length 0..4, compared with a cursor automaton after every operation.",
+                text="All read histories up to the depth bound over explicit reads, implicit pops of arity 1-3 and reads inside lambda/function scopes, for input lists of length 0..4, compared with a cursor automaton after every operation; plus whole-program runs through main.execute_vyxal (offline and online) over lists of input texts.",
                 note="Trusted: the cursor automaton (model of Input.md)."),
     "C12": dict(cat="model_checking", tech="explicit-state exploration of statement sequences / nesting chains with an invariant on the four bookkeeping stacks",
                 text="All nesting chains up to depth 4 with break/continue leaves and all statement sequences up to the BFS depth: the depth tuple of (context_values, inputs, stacks, function_stack) is restored after every top-level statement and n yields the top-level context.",
                 note="Invariant only; no reference run."),
     "C13": dict(cat="model_checking", tech="explicit-state search over observation histories on the real LazyList in lock-step with a Python list model",
-                text="All sources of length 0..3 over {0,1,2} x all observation histories up to depth 3/4 over 33 parametrised observations (no dedup) plus a de-duplicated BFS to depth 6/10; every observation is compared with the list model and the cache must stay a prefix of the source.",
+                text="All sources of length 0..3 over {0,1,2} x all observation histories up to depth 3/4 over 43 parametrised observations (incl. persistent copies / iterators and slices with negative bounds) (no dedup) plus a de-duplicated BFS to depth 6/10; every observation is compared with the list model and the cache must stay a prefix of the source.",
                 note="Trusted: Python list as the model. Indexing an empty list is not judged."),
     "C14": dict(cat="exploration", tech="bounded exhaustive enumeration of transformation pipelines x n on a pull-counting infinite source with a fuel budget",
                 text="Every catalogued transformation and every composition up to the bound, for all n<=40: taking n items terminates within the pull budget, pulls at most the composed linear bound, and equals the same pipeline on a finite twin.",
                 note="Linear bounds are fixed constants in the check source."),
     "C15": dict(cat="exploration", tech="bounded exhaustive enumeration of codec inputs, round-trip identity through the real lexer/transpiler",
-                text="All integers up to the bound, all [a-z ] strings up to length 3, ASCII strings and dictionary word pairs, all bases 2..300 on boundary integers: compress -> run -> original.",
+                text="All integers up to the bound, all [a-z ] strings up to length 3, ASCII strings, every dictionary word and word pairs, all bases 2..300 on boundary integers: compress -> run -> original; cross-kind and mixed-codec histories in one process.",
                 note="Trusted: CPython exec of generated literal code."),
     "C16": dict(cat="exploration", tech="bounded exhaustive enumeration of small integer lists against executable laws",
                 text="All integer lists up to length 4/5 over -2..3 (eager and lazy) against ~40 laws written with itertools/builtins.",
                 note="Trusted: the law right-hand sides."),
     "C17": dict(cat="exploration", tech="bounded exhaustive enumeration of integers and pairs against naive number-theory definitions",
-                text="All n up to the bound for the monads, all pairs up to the bound for the dyads, and a structured large family, against trial-division style definitions.",
+                text="All n up to the bound for the monads, all pairs up to the bound for the dyads, a structured large family, sympy-Integer arguments, and strong pseudoprimes / Mersenne primes for primality, against trial-division style definitions.",
                 note="Trusted: naive reference definitions, math.comb/factorial."),
     "C18": dict(cat="exploration", tech="bounded exhaustive enumeration of adversarial payloads x injection positions, AST vocabulary + erased-AST equality",
-                text="All payloads up to length 2/3 over a 22-character adversarial alphabet in every position that accepts program-chosen text, and all raw strings up to length 3/4: the generated Python must parse, use only the fixed vocabulary and differ from the benign output only in constants and prefixed identifiers.",
+                text="All payloads up to length 2/3 over a 27-character adversarial alphabet (incl. one character outside the code page) in every position that accepts program-chosen text, and all raw strings up to length 3/4: the generated Python must parse, use only the fixed vocabulary and differ from the benign output only in constants and prefixed identifiers.",
                 note="Trusted: ast.parse; vocabulary collected from a benign corpus."),
     "C19": dict(cat="exploration", tech="bounded exhaustive enumeration of tainted programs/inputs through execute_vyxal(online) observed by audit hooks and fd-level capture",
-                text="All programs up to the token bound over the printing/eval alphabet x tainted inputs x flags in online mode: no tainted exec, no host stdout, errors in the record.",
+                text="All programs up to the token bound over the printing/eval alphabet x tainted inputs x flags in online mode: no tainted exec, no host stdout, errors in the record; programs that print and then fail keep their output and report the error.",
                 note="Trusted: sys.addaudithook exec events, fd-level capture."),
     "C20": dict(cat="exploration", tech="exhaustive enumeration of finite tables (256 bytes, 65536 byte pairs, every table key)",
                 text="The code page, all two-byte strings, every key of the element/modifier/structure tables, the table source AST (duplicate keys) and the yaml arities are enumerated completely.",
